@@ -48,6 +48,22 @@ theorem C16_methods_owned (m : Mode) (lim : Nat) (t : TD α) (h : t.Inv) (meth :
   rw [C16_methods_dispatch, C16_methods_dispatch]
   exact ⟨C13_run_owned m lim t h _ (C16_methods_sane meth le p k) hsrc, C13_run_ext m lim t h _ (C16_methods_sane meth le p k) hsrc⟩
 
+/-- **general key functions**: `Recv.runSort` carries one order `le`; calling a `*_key` method with key function `key` (keys ordered
+    by `leK`) on any receiver is `runSort` of that method with `le x y := leK (key x) (key y)` (src/sort.rs: the `*_key` wrappers
+    build exactly this comparator), so the theorems above — and the ordered / ties-keep-their-order statements
+    `C16_sort_by_row_key_ordered`, `C17_sort_by_col_key_ordered` — cover every key function, not only the identity -/
+theorem C16_methods_key {κ : Type} (m : Mode) (lim : Nat) (rc : Recv α) (buf : List α) (key : α → κ) (leK : κ → κ → Bool)
+    (p : List Nat) (k : Nat) :
+    (do let rc' := rc.setBuf buf
+        let a ← rc'.acc m
+        a.sortByRowKey (rc'.indexRow m) buf lim key leK k)
+      = rc.runSort m lim buf .sort_by_row_key (fun x y => leK (key x) (key y)) p k ∧
+    (do let rc' := rc.setBuf buf
+        let a ← rc'.acc m
+        a.sortByColKey (rc'.col m) (rc'.swapRows m) buf lim key leK k)
+      = rc.runSort m lim buf .sort_by_col_key (fun x y => leK (key x) (key y)) p k :=
+  ⟨rfl, rfl⟩
+
 /-- the side sort of the unstable methods on concrete keys: the permutation it is given, or nothing std could have returned -/
 example : (sideGiven [1, 0] : SideSort Nat) [5, 6] = .ok [1, 0] ∧ (sideGiven [1, 1] : SideSort Nat) [5, 6] = .error .panic := ⟨rfl, rfl⟩
 
